@@ -133,6 +133,9 @@ def run(chk, w):
     # ---- DIR
     dir_rule(chk, P, "C09-DIR")
 
+    # ---- UNCOND
+    uncond_rule(chk, P, S, "C09-UNCOND", [f_.name for f_ in P.repo_functions() if f_.relfile.startswith("src/highlevel/bidib_highlevel_setter")], 12)
+
     # ---- NULL names (shared with C17): a command naming nothing is refused, not dereferenced
     from .. import nullparam
     nullparam.run(chk, P, "C09-NULL", set(w.api), lambda f_: f_.relfile.startswith("src/highlevel/bidib_highlevel_setter"), 10)
@@ -349,6 +352,35 @@ def _speed_codec(P):
     if not masks or not any(d_ == masks[0] + 1 for d_ in dirbits):
         raise AnalysisBroken("speed byte layout not recognised (mask %s, direction bit %s)" % (masks, sorted(set(dirbits))))
     return enc, masks[0]
+
+
+def uncond_rule(chk, P, S, rid, fnames, floor):
+    """shared with C16 / C20: whether a command's message is submitted does not depend on what the node has reported so far.  No transmit call site in
+    the given functions is guarded by a condition over a field of a tracked-state record (t_bidib_*_state*): a 'redundant command' shortcut on cached
+    feedback drops the command whenever the cache is stale (lost report, second track output, state changed behind the library's back)."""
+    from .c02 import _cond_loads
+    chk.rule(rid, "no message of a command is submitted or withheld depending on tracked feedback state: transmit call sites are not guarded by conditions over tracked-state records")
+    n = 0
+    for name in sorted(fnames):
+        f = P.functions.get(name)
+        if f is None or not f.blocks:
+            continue
+        for c in f.calls():
+            if not (c.callee in P.functions and (c.callee in S.constructors or rules.call_reaches(P, c, set(S.constructors)))):
+                continue
+            n += 1
+            dep = None
+            for (gd, truth) in list(rules.conditions_at(f, c)) + rules.control_conditions(f, c):
+                for l in _cond_loads(f, gd["cond"]):
+                    fp = rules.field_path_of_ptr(P, f, l["ptr"]) if l["ptr"].get("k") == "inst" else None
+                    if fp and "_state" in fp.split(".")[0] and not fp.endswith(".id"):
+                        dep = (l, fp)
+            if dep:
+                chk.violation(rid, name, "%s:conditional" % c.callee, c.loc(), "%s is called only under a condition on %s (line %d): whether the command goes out depends on the cached "
+                              "feedback, so it is dropped when the cache is stale or was set by another output" % (c.callee, dep[1], dep[0].line))
+            else:
+                chk.ok(rid, 1, None)
+    chk.floor(rid.lower().replace("-", "_") + "_sites", n, floor)
 
 
 def dir_rule(chk, P, rid):
